@@ -354,6 +354,16 @@ def route(rc):
                 rc.fail(q, s.node, "the intervened values must be part of the evidence of every inner query for the query variables", construct="do as evidence")
             else:
                 uses_do += 1
+    # the caller's evidence must reach every inner query of the adjustment sum (it is a parameter: re-binding it inside the loop to a dictionary that does not
+    # contain it drops every observation outside the adjustment set)
+    for lp_ in [n for n in walk_no_nested(q.node) if isinstance(n, ast.For)]:
+        for n in ast.walk(lp_):
+            if isinstance(n, ast.Assign) and any(dotted(t) == "evidence" for t in n.targets) and isinstance(n.value, ast.Dict):
+                keeps = any(k is None and dotted(v) == "evidence" for k, v in zip(n.value.keys, n.value.values))
+                rc.ob(f"adjustment loop re-binds evidence: {norm(n, 60)} (keeps the caller's evidence: {keeps})")
+                if not keeps:
+                    rc.fail(q, n, "inside the adjustment sum the parameter `evidence` is re-bound to {do, adjustment states}: observations on variables outside the adjustment set are "
+                            "dropped, so query(variables, do, evidence) equals the answer without that evidence", construct="adjustment loop drops evidence")
     if uses_do < 2:
         rc.fail(q, q.node, "interventional branches must query with the do-values as evidence", construct="do branches")
 
@@ -365,7 +375,9 @@ def defuse(rc):
     _sh.defuse_rule(rc, _sh.anchor_files("C13"))
 
 MUTANTS = [
-    dict(kind="repair", name="adjustment-validator-all-pairs", file=CI, gone="C13.route",
+    dict(kind="repair", name="adjustment-loop-keeps-evidence", file=CI, gone="C13.route", construct="adjustment loop drops evidence",
+         old="            evidence = {**do, **adj_evidence}\n", new="            evidence = {**evidence, **do, **adj_evidence}\n"),
+    dict(kind="repair", name="adjustment-validator-all-pairs", file=CI, gone="C13.route", construct="adjustment validator pairs",
          old="        for x, y in zip(X, Y):", new="        for x, y in product(X, Y):"),
     dict(kind="break", name="do-removes-outgoing", file=DAGF, expect="C13.surgery",
          old="            parents = list(dag.predecessors(node))\n            for parent in parents:\n                dag.remove_edge(parent, node)",
